@@ -3,6 +3,9 @@
 import json, subprocess
 ALL = ["C%02d" % i for i in range(1, 21)]
 CLAIMED = {
+ "C02": dict(level="exploration", technique="differential runtime oracle over generated histories: SearchFacts/GetFact/AddFact/RemFact on indexed and linear state in lock-step vs a reference location model + brute-force matcher; generated-id freshness monitor",
+   text="Every operation of generated add/overwrite/remove/get/search histories is executed on both state implementations and compared with the model (result sets of (id, bindings), get values, ids); held-on-K-operations assurance for a for-all-histories claim about a candidate-filter index.",
+   note="Trusts lib/ref; facts without variable-looking strings and without ttl/expires; three open known findings classified by pattern shape.", ref="§5 C02"),
  "C01": dict(level="exploration", technique="differential runtime oracle over generated operation histories: real dispatch (FindRules.Do / ProcessEvent, indexed and linear state, with parents) vs a reference location model + brute-force matcher",
    text="After every step of generated add/replace/remove/overwrite/enable/clear histories a batch of events derived from current and former `when` patterns is dispatched through the real location and compared (ids and binding sets) with the model; held-on-K-observations assurance for a for-all-histories claim.",
    note="Trusts lib/ref (matcher + location model); only the documented {when:{pattern}} rule form; bindings compared with arrays as sets; three open known findings are classified by input shape.", ref="§5 C01"),
